@@ -202,6 +202,8 @@ def metrics(M, n):
         ("diagonal array", d, np.diag(d)),
         ("Cholesky-factored", M.TriangularFactoredPositiveDefiniteMatrix(L), L @ L.T),
         ("eigendecomposed", M.EigendecomposedPositiveDefiniteMatrix(Q, lam), Q @ np.diag(lam) @ Q.T),
+        # implicitly sized but not the identity (added after seed C07-c; kept last: some case lists slice this list by position)
+        ("positive scaled identity of implicit size", M.PositiveScaledIdentityMatrix(s), s * eye(n)),
     ]
 
 
@@ -284,7 +286,7 @@ def c05_cases(S, M, ST, O, which):
                 k += 1
         # constrained: one constraint on R^2
         model.n_constr = 1
-        for label, marg, view in metrics(M, n)[1:5]:
+        for label, marg, view in metrics(M, n)[1:5] + metrics(M, n)[-1:]:
             for hausdorff in (True, False):
                 if k == which:
                     sysm = S.DenseConstrainedEuclideanMetricSystem(model.neg_log_dens, model.constr, metric=marg, dens_wrt_hausdorff=hausdorff,
